@@ -55,6 +55,7 @@ func WaitCond(ctx context.Context, cond *sync.Cond, fn func() bool) error {
 						locked = true
 						verifAt("sync.wc.watch.lock", cond, 0)
 						l.Lock()
+						verifAt("sync.wc.watch.locked", cond, 0)
 						defer l.Unlock()
 					}
 					cond.Broadcast()
